@@ -313,7 +313,7 @@ func TestC43(t *testing.T) {
 var (
 	c43TenantToks = []string{"a", "b", "c", ":", ",", "|", "true", "1000", "[]", "-"}
 	c43TextToks   = []string{"a", "b", "c", ":", ",", "\\", "true", "false", "1000", "[]", "-", "3600000"}
-	c43QueryToks  = []string{"a", "b", "c", ":", "1000", "3600000", "_"}
+	c43QueryToks  = []string{"a", "b", "c", ":", "1000", "3600000"}
 	c43Matchers   = []string{`a="b"`, `a="b:c"`, `c="d"`, `a=":"`, `e="[]"`}
 )
 
@@ -371,7 +371,10 @@ func c43Random(r *rand.Rand) map[string]any {
 	if r.Intn(10) == 0 {
 		storem = []string{`a="b"`}
 	}
-	return map[string]any{"kind": "range", "tenant": tenant, "query": c43Toks(r, c43QueryToks, 1, 4),
+	// a metric name (may contain ':' and digits, starts with a letter or ':'): the split middleware
+	// re-prints the query, anything else (number literals, ...) would be normalised on the way
+	query := append([]string{c43QueryToks[r.Intn(4)]}, c43Toks(r, c43QueryToks, 0, 3)...)
+	return map[string]any{"kind": "range", "tenant": tenant, "query": query,
 		"step": []int{1000, 2000, 15000, 60000}[r.Intn(4)], "split": 3600000, "start": []int{0, 3600000}[r.Intn(2)],
 		"msr": []int{0, 10000, 300000, 3600000}[r.Intn(4)], "shard": c43Shard(r), "lookback": []int{0, 1000, 300000}[r.Intn(3)],
 		"engine": c43Toks(r, c43TextToks, 0, 3), "partial": r.Intn(2) == 0, "replicas": c43ReplicaList(r),
